@@ -159,7 +159,7 @@ func c10a(c *Ctx, r *Report) {
 					fmt.Sprintf("this constructor produces a token of kind %s without setting EndAt, but Parse reads current.EndAt under that kind to cut the epilogue: the offset is 0 and the whole grammar text is appended to the output as epilogue (a file without a second %%%% section mark)", kindDesc))
 				return true
 			}
-			pc := &pathCtx{info: finfo}
+			pc := pathCtxFor(fn)
 			p := pc.path(endE)
 			ok2 := strings.HasSuffix(p, ".end") || (strings.HasPrefix(p, "len(") && strings.HasSuffix(p, ".input)"))
 			r.Check(ok2, clause, "R14 VARIANT-FIELD-INIT", construct, c.pos(cl.Pos()),
@@ -492,7 +492,7 @@ func c10b(c *Ctx, r *Report) {
 				return true
 			}
 			if se, isSl := unparen(call.Args[1]).(*ast.SliceExpr); isSl {
-				pc := &pathCtx{info: info}
+				pc := pathCtxFor(f)
 				if strings.HasSuffix(pc.path(se.X), ".input") {
 					ok = true
 				}
@@ -663,7 +663,7 @@ func appendOnlySource(c *Ctx, w writeSite) bool {
 		// parameter: the callers' arguments are checked where they are built
 		var fn *FuncRef
 		for _, f := range c.AllFuncs() {
-			if f.Decl.Pos() <= v.Pos() && v.Pos() <= f.Decl.End() {
+			if f.Pkg.TypesInfo == w.info && (defIdentIn(f.Pkg.TypesInfo, f.Decl, v) != nil) {
 				fn = f
 			}
 		}
